@@ -52,9 +52,16 @@ type c09Chain struct {
 	ctx sdk.Context
 	k   ckeeper.Keeper
 	mu  sync.Mutex
+	// when set, every chain lookup announces itself and waits until the schedule releases it
+	arrivals chan chan struct{}
 }
 
 func (c *c09Chain) Certificates(ctx context.Context, in *ctypes.QueryCertificatesRequest, _ ...grpc.CallOption) (*ctypes.QueryCertificatesResponse, error) {
+	if c.arrivals != nil {
+		release := make(chan struct{})
+		c.arrivals <- release
+		<-release
+	}
 	c.mu.Lock()
 	defer c.mu.Unlock()
 	return c.k.Querier().Certificates(sdk.WrapSDKContext(c.ctx), in)
